@@ -146,12 +146,12 @@ def one(ctx, i):
         cfg = gen.rand_cfg(rng, n_max=nmax, demes_max=1, epochs_max=2)
     if rng.random() < 0.3:
         cfg['end_time'] = float(2.0 ** rng.randint(-1, 3))
-    compare(ctx, cfg, pg, 48 if quick else 150)
+    compare(ctx, cfg, pg, 48 if quick else 110)
 
 
 def run(ctx):
     import check
-    check.pmap(ctx, 'props.c02', 'one', list(range(48 if ctx.quick else 240)), case_timeout=200 if ctx.quick else 1500)
+    check.pmap(ctx, 'props.c02', 'one', list(range(48 if ctx.quick else 160)), case_timeout=200 if ctx.quick else 1500)
 
 
 def replay(ctx, payload):
